@@ -920,8 +920,9 @@ func (r *e1Run) parseStream(stream []byte) (p e1Parsed, v *core.Violation) {
 		}
 		want := call.Payload
 		n := imin(len(want), len(stream)-pos)
-		if call.Op.Op == "readfrom" && call.End != 0 && call.Err != nil {
-			// a streamed reader that was rejected half-way: the chunks written before the failure stay
+		if call.Op.Op == "readfrom" && (call.End == 0 || call.Err != nil) {
+			// a streamed reader that was rejected half-way (or is still on its way: a call pushed on by a terminal probe
+			// runs beside the harness): the chunks written so far stay
 			l := firstDiff(stream[pos:pos+n], want[:n])
 			if l == 0 {
 				return p, core.Viol("stream/payload-modified", "first byte of a rejected ReadFrom payload only (call %d)", id)
